@@ -80,6 +80,7 @@ def gen_cases(tier: str, seed: int):
         yield {"kind": "tokens", "seed": r.randrange(1 << 30)}
         yield {"kind": "reshape", "seed": r.randrange(1 << 30)}
         yield {"kind": "describe", "seed": r.randrange(1 << 30)}
+        yield {"kind": "txn_with_failure", "seed": r.randrange(1 << 30)}
     # zoo templates in lock-step
     reps = 2 if tier == "quick" else 30
     tags = [z["tag"] for z in zoo.ZOO]
@@ -341,6 +342,19 @@ def run_case(case: dict, env: core.Env) -> None:
         return _reshape(case, env)
     if kind == "describe":
         return _describe(case, env)
+    if kind == "txn_with_failure":
+        # a failing statement inside an open transaction: the same error, and the transaction goes on the same way
+        r = random.Random(case["seed"])
+        bad = r.choice(["SELECT * FROM NO_SUCH_TABLE_T", "SELECT NOCOL FROM ORDERS", "SELECT $no_such_variable_t", "INSERT INTO NO_SUCH_TABLE_T VALUES (1)"])
+        end = r.choice(["COMMIT", "ROLLBACK"])
+        n = 880000 + r.randrange(1000)
+        for sql in ("BEGIN", f"INSERT INTO ORDERS (ID) VALUES ({n})", bad, f"INSERT INTO ORDERS (ID) VALUES ({n + 1})", f"SELECT COUNT(*) FROM ORDERS WHERE ID >= {n}", end,
+                    f"SELECT COUNT(*) FROM ORDERS WHERE ID >= {n}", f"DELETE FROM ORDERS WHERE ID >= {n}"):
+            if not _compare(env, sql, "txn"):
+                _resync()
+                break
+        env.nontrivial(("txn_with_failure", bad, end))
+        return
     if kind == "typed":
         env.cover("typed_types", "+".join(sorted(set(case["types"]))))
         if not _compare(env, case["sql"], "typed", case["types"]):
